@@ -114,8 +114,21 @@ def rule_target(R):
         cd = peel(fl["correlation_data"])
         # the topic is the payload of response_topic(): `?`, `let Some(..) else`, match -- without a topic no target
         src_ = tp[1] if tp[0] == "ok" else (chain(tp)[0] if chain(tp)[1] == ["@Some", "0"] else None)
-        okt = src_ is not None and is_call(peel(src_), "response_topic") and chain(peel(src_)[3][0])[0] == ("param", "self")
-        okc = is_call(cd, "correlation_data") and chain(cd[3][0])[0] == ("param", "self")
+        def from_message(t_):
+            """the receiver of the lookup is the message itself / its properties -- `self`, or a parameter for which every
+            caller hands in the properties of the message it was called on"""
+            r_, n_ = chain(t_)
+            if r_ == ("param", "self"):
+                return True
+            if isinstance(r_, tuple) and r_[0] == "param" and not n_:
+                pi = [k for k in range(1, hb_.arg_count + 1) if hb_.param_name(k) == r_[1]]
+                sites = [(b2, c2) for b2 in f.bodies.values() if not f.in_fuzzing(b2) for c2 in outq.calls_to(f, b2, hb_)]
+                return bool(pi) and bool(sites) and all(
+                    pi[0] - 1 < len(c2.args) and chain(b2.operand_term(c2.args[pi[0] - 1])) == (("param", "self"), ["properties"])
+                    for (b2, c2) in sites)
+            return False
+        okt = src_ is not None and is_call(peel(src_), "response_topic") and from_message(peel(src_)[3][0])
+        okc = is_call(cd, "correlation_data") and from_message(cd[3][0])
         R.ob("target/topic" + suffix, okt,
              "the reply target's topic is the message's response topic, and without one there is no target (`?`) (found %s)" % show(fl["topic"]),
              where=hb_.span)
